@@ -40,6 +40,7 @@ pub fn instance_for(ctx: &Ctx, idx: u64) -> (Value, String, String) {
     let mut opts = GenOpts::new(profile, max_dep);
     if matches!(ctx.prop.as_str(), "C05" | "C04") && rng.chance(1, 2) {
         opts.force_slots = true;
+        opts.rotation_rich = rng.chance(1, 2);
     }
     let tag = format!("s{}c{}", ctx.seed, idx);
     let input = gen::generate(&mut rng, &opts, &tag);
